@@ -509,12 +509,16 @@ def _leaves(tier, seed):
     for sh, rk in (([7, 5], [1, 4, 1]), ([2, 9, 3], [1, 2, 5, 1]), ([4, 1, 6, 2], [1, 3, 3, 2, 1]), ([2] * 5, [1, 2, 3, 3, 2, 1])):
         for pat in pats:
             out.append(dict(shape=sh, ranks=rk, pat=pat, depth=1, partners=[['intB', 2], ['gen', 1]], seed=seed, nums=NUMS))
+    # moderately large sizes (mode 17 / 32 / 40, rank 6 / 7 / 10, d = 6 / 8 / 10; coprime mode sizes): one level of operations on each
+    for sh, rk in (([17, 3], [1, 6, 1]), ([3, 32], [1, 3, 1]), ([40, 2], [1, 2, 1]), ([5, 7, 11], [1, 5, 7, 1]), ([12, 12], [1, 10, 1]), ([3] * 6, [1, 2, 3, 2, 3, 2, 1]),
+                   ([2] * 8, [1, 2, 4, 6, 6, 4, 2, 2, 1]), ([2] * 10, [1, 2, 2, 3, 2, 2, 3, 2, 2, 2, 1])):
+        out.append(dict(shape=sh, ranks=rk, pat='gen', depth=1, partners=[['intB', 2], ['gen', 1]], seed=seed, nums=NUMS[:4] + NUMS[6:7]))
     return out
 
 
 def strata(tier, seed):
     ls = _leaves(tier, seed)
-    for d in (2, 3, 4, 5):
+    for d in sorted({len(l['shape']) for l in ls}):
         sub = [l for l in ls if len(l['shape']) == d]
         yield Stratum('expression trees, d=%d leaves' % d, sub, 'leaf', size=len(sub), chunk=1,
                       bounds={'depth': sorted({l['depth'] for l in sub}), 'leaves': len(sub)})
